@@ -47,6 +47,15 @@ pub fn value_event(v: &Value) -> J {
             Some(Some(x)) => alpha(x) == alpha(v),
             _ => true,
         });
+        // conversions into primitive / unit types: [f64, bool, String, Marker, Na, Remove] - which succeed, and do they return the payload
+        let prim_ok = vec![f64::try_from(v).is_ok(), bool::try_from(v).is_ok(), String::try_from(v).is_ok(), Marker::try_from(v).is_ok(),
+            Na::try_from(v).is_ok(), Remove::try_from(v).is_ok()];
+        let prim_same = match v {
+            Value::Number(n) => f64::try_from(v).map(|x| x.to_bits() == n.value.to_bits()).unwrap_or(true),
+            Value::Bool(b) => bool::try_from(v).map(|x| x == b.value).unwrap_or(true),
+            Value::Str(s) => String::try_from(v).map(|x| x == s.value).unwrap_or(true),
+            _ => true,
+        };
         let mut d = Dict::new();
         d.insert("x".into(), v.clone());
         let g: Vec<Option<Option<Value>>> = vec![
@@ -65,7 +74,7 @@ pub fn value_event(v: &Value) -> J {
         }) && d.get_bool("y").is_none() && d.get_num("y").is_none() && d.get_str("y").is_none();
         let has_ok = d.has("x") && !d.missing("x") && d.missing("y") && !d.has("y")
             && d.has_marker("x") == v.is_marker() && d.has_na("x") == v.is_na() && d.has_remove("x") == v.is_remove() && !d.has_marker("y");
-        json!({"preds":preds,"kind_name":kind,"typed_exists":typed_exists,"typed_ok":typed_ok,"typed_same":typed_same,
+        json!({"preds":preds,"kind_name":kind,"typed_exists":typed_exists,"typed_ok":typed_ok,"typed_same":typed_same,"prim_ok":prim_ok,"prim_same":prim_same,
                "getter_exists":getter_exists,"getter_ok":getter_ok,"getter_same":getter_same,"has_ok":has_ok})
     });
     match r {
@@ -75,7 +84,7 @@ pub fn value_event(v: &Value) -> J {
             j["monitor"] = json!("ok");
             j
         }
-        Err(_) => json!({"op":"kind.value","v":alpha(v),"monitor":"panic","preds":[],"kind_name":"","typed_exists":[],"typed_ok":[],"typed_same":false,
+        Err(_) => json!({"op":"kind.value","v":alpha(v),"monitor":"panic","preds":[],"kind_name":"","typed_exists":[],"typed_ok":[],"typed_same":false,"prim_ok":[],"prim_same":false,
                          "getter_exists":[],"getter_ok":[],"getter_same":false,"has_ok":false}),
     }
 }
